@@ -12,6 +12,27 @@ CHECKS = {
    design="3/C02"),
 }
 
+CHECKS.update({
+ "C06": dict(
+   engine="seqx",
+   technique="exhaustive history exploration of the real window code (NAK, earned/global ACK, time-based recovery, resets) with an invariant and direction monitor",
+   text="All event sequences up to depth d and all <=k-deviation sequences up to depth 200 (walking 20000 -> 1000 through 190 real NAKs and back) over the real SrtlaConnection / CongestionControl window code in both modes, from nine start windows reached by real NAK/ACK runs; after every event the monitor checks range, exact NAK/ACK step, direction, reset value and the fast-recovery entry/exit thresholds. Inductive-style invariants over long mixed histories are exactly what bounded exhaustive exploration with a per-step monitor decides.",
+   note="Trusted: the monitor's own integer rules (taken from the statement), rustc. Extreme in-flight values and non-finite velocities are injected at the real CongestionControl entry points. Classic-mode 'no time-based recovery' is decided in C10's world (housekeeping arm).",
+   design="3/C06"),
+ "C15": dict(
+   engine="prodx",
+   technique="exhaustive product enumeration of byte strings through every real decoder, differential against an independent reference codec; builder round-trips",
+   text="Every byte string of length 0..=2, every one of the 65536 type codes at every listed length with three tail patterns, every word list up to length 5/6 over an 8-word boundary alphabet as NAK / SRTLA-ACK / SRT-ACK payload, MTU-sized NAKs of over-wide ranges, and every builder over its argument alphabets are run through the real codec and compared with a reference decoder written from the property's layout table. The sweep runs in a child process with an address-space limit so an abort is reported as a violation.",
+   note="Trusted: the reference decoder in the harness (about 80 lines, no shared code with srtla-protocol). Exhaustive for short inputs and all type codes; structured-exhaustive (alphabet-valued fields) beyond.",
+   design="3/C15"),
+ "C17": dict(
+   engine="statex",
+   technique="explicit-state BFS to a fixpoint over the real WeakLinkFilter::classify with canonical keys, independent verdict-history monitor",
+   text="Breadth-first search over all tick-by-tick input histories (per-link alphabet of connectivity x bitrate on/just under each threshold x RTT class, links joining and leaving) of the real classifier for 1..4 links; the canonical key is the filter's private hysteresis memory plus the monitor's memory, all saturating, so the search runs until the frontier is empty (all reachable states). The monitor keeps its own verdict history and checks the two-tick delay rule, the 15-verdict/3-tick probation rule, the enter/leave thresholds and the disconnected/under-floor rule on every transition.",
+   note="Trusted: the monitor, the canonicalisation argument (delay streak saturated at 2 because the code only compares it with >= 2), the choice of RTT classes that make the delay signal unambiguous. Tier arithmetic itself is left to the repository's unit tests.",
+   design="3/C17"),
+})
+
 NOT_YET = {
 }
 
